@@ -257,6 +257,13 @@ def scenarios(tier):
             for first, tok1 in [("borrow", debts[0])] + ([("withdraw", colls[0])] if colls else []):
                 for then, tok_then in [("borrow", debts[0])] + ([("withdraw", colls[0])] if colls else []):
                     out.append(Scenario(f"limits2/{sn}/{first}:{tok1}+{then}:{tok_then}", limits, params=dict(shape=shape, op=first, tok=tok1, tok2=None, then=then, tok_then=tok_then, warm=True), shadows=SHADOWS, entry=(f"AaveV3Market.{first}", f"AaveV3Market.{then}", "health_factor", "max_ltv"), max_paths=1200))
+        # another Aave market with other risk parameters has been used in the same process before
+        if sn in ("A", "B") or tier != "quick":
+            out.append(Scenario(f"views/{sn}/another_aave_market_in_the_process", views, params=dict(shape=shape, neighbour_market=True), shadows=SHADOWS, entry=("health_factor", "max_ltv", "liquidation_threshold")))
+            debts = [n for n in shape if shape[n][1]] or list(shape)[:1]
+            colls = [n for n in shape if shape[n][0] == "C"]
+            for op, tok in [("borrow", debts[0])] + [("withdraw", c) for c in colls[:1]]:
+                out.append(Scenario(f"limits/{sn}/{op}/{tok}/another_aave_market_in_the_process", limits, params=dict(shape=shape, op=op, tok=tok, tok2=None, neighbour_market=True), shadows=SHADOWS, entry=(f"AaveV3Market.{op}",), max_paths=800))
         # views read, then a NEW BAR with other prices and indices, then a limit-bearing operation
         if sn in ("A", "B", "C") or tier != "quick":
             debts = [n for n in shape if shape[n][1]] or list(shape)[:1]
